@@ -8,7 +8,8 @@
 (*   [id, kind, plays |-> <<flat play, ...>>, events |-> <<e, ...>>]       *)
 (*   e = [ev |-> "obs" | "end", p |-> index into plays, via, build,        *)
 (*        out |-> "ok" | "err" | "crash:<type>", digest |-> hex or "",     *)
-(*        revoked |-> <<hex, ...>>]                                        *)
+(*        revoked |-> <<hex, ...>>, ldoc |-> index into plays of the       *)
+(*        revocation list document, lparse, lvalid |-> BOOLEAN]            *)
 (*                                                                         *)
 (* kind "class": all observations of the batch that produced one digest    *)
 (*   (or, digest "", all non-accepting observations of one play).  Every   *)
@@ -35,18 +36,33 @@ More == l < Len(T.events)
 PlayOf(e) == T.plays[e.p]
 NoCur == [set |-> FALSE, x |-> <<>>]
 
+(* The revocation list is a document of its own, verified like a play (verify_play) before it is   *)
+(* trusted: e.lparse (it is YAML at all), Pre(list document) (vars, signature, exclusion list),     *)
+(* e.lvalid (the answer of the stubbed GPG for it).  "" = usable; any other value = the reason why  *)
+(* verification of the PLAYBOOK must fail - an ill-formed or unverifiable list is never "no         *)
+(* revocations".  "unspecified" = the property is silent (see Why).                                 *)
+ListWhy(e) ==
+    IF ~e.lparse THEN "unparsable"
+    ELSE LET w == Why(T.plays[e.ldoc], "verify_play") IN
+         IF w # "" THEN w ELSE IF ~e.lvalid THEN "bad-signature" ELSE ""
+
 (* everything the reference says about one observation, computed once *)
 Judge(e) ==
     LET p == PlayOf(e)
         w == Why(p, e.via)                     \* "" = acceptable
         pr == IF w = "" THEN "ok" ELSE IF w = "unspecified" THEN "any" ELSE "err"
         x == IF w = "" THEN Excl(p) ELSE <<>>
+        lw == IF e.via = "verify" THEN ListWhy(e) ELSE ""
         exp == IF pr = "any" THEN "any" ELSE IF pr = "err" THEN "err"
+               ELSE IF lw = "unspecified" THEN "any"
+               ELSE IF lw # "" THEN "err"                                            \* unusable revocation list
                ELSE IF e.via = "verify" /\ e.digest \in Rng(e.revoked) THEN "err"      \* revocation branch of verify()
                ELSE "ok"
-    IN [why |-> w, pre |-> pr, x |-> x, exp |-> exp,
+    IN [why |-> w, pre |-> pr, x |-> x, exp |-> exp, lwhy |-> lw,
         con |-> pr = "ok" /\ e.digest # "",                                         \* takes part in the digest comparison
-        tab |-> exp = "any" \/ (exp = e.out /\ ((pr = "ok") <=> (e.digest # "")))]   \* outcome table; digest iff acceptable
+        \* outcome table; a digest reaches the GPG boundary iff the play is acceptable (with an unusable
+        \* revocation list the order of the two verifications is not prescribed: digest or none)
+        tab |-> exp = "any" \/ (exp = e.out /\ (lw # "" \/ ((pr = "ok") <=> (e.digest # ""))))]
 
 Constrained(e) == Why(PlayOf(e), e.via) = "" /\ e.digest # ""
 
@@ -75,8 +91,9 @@ JoinStr(S) == IF S = {} THEN "" ELSE LET x == CHOOSE x \in S : TRUE IN
 
 DiagTable(e) ==
     "Table:" \o e.via \o ":expected-" \o Judge(e).exp \o ":" \o
-    (IF Why(PlayOf(e), e.via) = "" THEN (IF e.via = "verify" /\ e.digest \in Rng(e.revoked) THEN "revoked" ELSE "acceptable")
-     ELSE Why(PlayOf(e), e.via)) \o
+    (IF Why(PlayOf(e), e.via) # "" THEN Why(PlayOf(e), e.via)
+     ELSE IF Judge(e).lwhy # "" THEN "revocation-list-" \o Judge(e).lwhy
+     ELSE IF e.via = "verify" /\ e.digest \in Rng(e.revoked) THEN "revoked" ELSE "acceptable") \o
     ":observed-" \o (IF e.out = "ok" \/ e.out = "err" THEN e.out ELSE "crash")
 
 DiagClass ==
